@@ -114,8 +114,13 @@ def oracle(case):
     out.nontrivial = len(kinds) >= 2 and hs and ds
     vtext, btext = lastext.render(spec), lastext.render(base)
     out.sample = vtext if len(vtext) < 900 else vtext[:900] + "..."
-    a = read_text(btext, mnemonic_case=mc, engine=engine)
-    b = read_text(vtext, mnemonic_case=mc, engine=engine)
+    rkw = {}
+    if case.get("policy_list"):
+        # the default read policy spelled out by the caller (docs/source/data-section.rst): a configuration like any other
+        rkw["read_policy"] = ["comma-decimal-mark", "run-on(-)", "run-on(.)"]
+        out.cls("read_policy-spelled-out")
+    a = read_text(btext, mnemonic_case=mc, engine=engine, **rkw)
+    b = read_text(vtext, mnemonic_case=mc, engine=engine, **rkw)
     tag = "dlm-%s|%s" % (dlm, "wrapped" if wrapped else "unwrapped")
     if is_raised(a):
         out.fail("base-raises|%s|%s" % (a.bucket, tag), "the plain presentation could not be read: %s\n%s" % (a, btext))
@@ -303,7 +308,10 @@ def variants(draw):
         var["dlm_space"] = False
         var.get("titles", {}).pop("A", None)
         S.apply_scaffold(spec, var)
-    return {"spec": spec, "mnemonic_case": draw(st.sampled_from(["upper", "preserve", "lower"])), "engine": draw(st.sampled_from(["numpy", "normal"]))}
+    case = {"spec": spec, "mnemonic_case": draw(st.sampled_from(["upper", "preserve", "lower"])), "engine": draw(st.sampled_from(["numpy", "normal"]))}
+    if draw(st.integers(0, 5)) == 0:
+        case["policy_list"] = True
+    return case
 
 
 def mkrow(draw, toks, sep_char, rich):
